@@ -87,7 +87,7 @@ Definition valid_local (l : str) : bool :=
   end.
 
 (** ** tokens *)
-Inductive kind := KIri | KBnode | KNonlit | KLit.
+Inductive kind := NkIri | NkBnode | NkNonlit | NkLit.
 
 Inductive token :=
 | TPrefixKw | TIri (i : str) | TPname (p l : str) | TKind (k : kind) | TOr | TAnd
@@ -110,10 +110,10 @@ Definition classify (w : str) : option token :=
   | None =>
     let u := upper w in
     if str_eqb u (Str "PREFIX") then Some TPrefixKw
-    else if str_eqb u (Str "IRI") then Some (TKind KIri)
-    else if str_eqb u (Str "BNODE") then Some (TKind KBnode)
-    else if str_eqb u (Str "NONLITERAL") then Some (TKind KNonlit)
-    else if str_eqb u (Str "LITERAL") then Some (TKind KLit)
+    else if str_eqb u (Str "IRI") then Some (TKind NkIri)
+    else if str_eqb u (Str "BNODE") then Some (TKind NkBnode)
+    else if str_eqb u (Str "NONLITERAL") then Some (TKind NkNonlit)
+    else if str_eqb u (Str "LITERAL") then Some (TKind NkLit)
     else if str_eqb u (Str "OR") then Some TOr
     else if str_eqb u (Str "AND") then Some TAnd
     else None
